@@ -93,6 +93,11 @@ def prepare_gdd(weather_df, sim_start, sim_end, gdd, crop, sum_fun):
         # get cumulative GDD for current season
         gdd_cum=np.cumsum(season_data['gdd'])
 
+        # a season cut short by the end of the simulation (or the days before
+        # the first planting date) cannot be converted: leave it out of the average
+        if len(gdd_cum) <= int(crop.MaturityCD):
+            continue
+
         # Find GDD equivalent for each crop calendar day growth stage
         gdd_lists['Emergence'].append(gdd_cum.iloc[int(crop.EmergenceCD)])
         gdd_lists['Canopy10Pct'].append(gdd_cum.iloc[int(crop.Canopy10PctCD)])
@@ -112,6 +117,8 @@ def prepare_gdd(weather_df, sim_start, sim_end, gdd, crop, sum_fun):
             gdd_lists['FloweringEnd'].append(flowering_end)
             # Duration of flowering (gdd's)
             gdd_lists['FloweringDuration'].append(flowering_end - crop.HIstart)
+
+    assert len(gdd_lists['Maturity']) > 0, "not enough growing degree days in simulation: no growing season is long enough to reach maturity"
 
     # calculate mean/median of GDD growth stages using dictionary logic,
     # set the attribute to update the crop object
